@@ -901,7 +901,7 @@ func remainderRules(c *Ctx, p *Prog, r5, r6, chKey, rpKey, tConn, shKey string) 
 		for _, r := range ff.SuccessReturns() {
 			// (success returns that are not reached through the response parser — a handshake form
 			// without a response — leave nothing behind)
-			if canReachWithout(next, r, nil) && !instrDominates(s.Instr, r) {
+			if canReachWithout(next, r, map[ssa.Instruction]bool{s.Instr: true}) {
 				okSet = false
 			}
 		}
